@@ -332,8 +332,8 @@ func runC04(c *Ctx) int {
 		foldChild(run, o, inVegeta)
 	}
 	run.Floor("attacks", int64(shards*per*9/10))
-	run.Floor("pace_calls", 15000)
-	run.Floor("transport_entries", 15000)
+	run.Floor("pace_calls", 3000)
+	run.Floor("transport_entries", 3000)
 	run.FloorDistinct(shards * per / 2)
 	return run.Finish()
 }
